@@ -216,6 +216,19 @@ func c14Runs(c *vh.Ctx, metas []cfgMeta) {
 				layer[rk.name], want[rk.name] = "file", plain(p.Cfg[rk.name])
 			}
 		}
+		if k%8 == 1 {
+			// always present: the empty text on the line over a non-empty text in the file (an empty text is a value; it is then
+			// resolved by the result format) — no draw, the other runs are unchanged
+			args := p.Args[:0:0]
+			for _, a := range p.Args {
+				if !strings.HasPrefix(a, "ResultFileExt=") {
+					args = append(args, a)
+				}
+			}
+			p.Args = append(args, "ResultFileExt=")
+			p.Cfg["ResultFileExt"] = strconv.Quote("dat")
+			layer["ResultFileExt"], want["ResultFileExt"] = "line", ""
+		}
 		// a repeated key (the last one counts; outside the property, compared with the model only)
 		if r.Chance(0.3) {
 			for i, a := range p.Args {
